@@ -40,6 +40,8 @@ def cases(tier):
     out = fixfam.fix_cases(tier, rulesets_raw=("all",), rulesets_yaml=("all",))
     ml = 32 if tier == "quick" else 44
     ts = [t for t in corpus.t_seqs(1, 2, corpus.T_LITS, max_len=ml) if corpus.has_markup(t)]
+    # + tokens spanning 2-3 template slices / templated whitespace (no separating spaces)
+    ts = sorted(set(ts) | set(corpus.span_templates(3)), key=lambda s: (len(s), s))
     for i in range(0, len(ts), 8):
         out.append({"k": "jinja", "ts": ts[i : i + 8]})
     fx = corpus.fixtures(400 if tier == "quick" else 2000)
